@@ -7,8 +7,17 @@ A case is one of
 kind: 'str' (data = list of str), an integer dtype name (data = ints), 'float32'/'float64'
 (data = float.hex() strings), 'bool' (data = 0/1).
 rf (csv): None | ['arr', flags] | ['field', name] (a bool column of the frame) | ['xfield', name, flags]
-(a bool field of another dataframe).  cf: None | 'name' | [names].
+(a bool field of another dataframe) | ['mem', flags] (a memory-backed bool field, e.g. the result of `df['a'] > 1`).
+cf: None | 'name' | [names].
 Result of op csv: [file bytes, rows recovered by the CSV parser, re-imported columns or None].
+Columns that are never selected may also be of kind 'fixed' (fixed-length strings), 'cat' (categorical 0/1) or 'ts'
+(timestamps): the export must not depend on them in any way.
+  {'op':'seq', 'cols':..., 'lists':[[names]...], 'arrs':[[flags]...], 'steps':[step...]}     (a history, SC18)
+one dataframe, ONE destination path, the caller's objects reused: step = {'rf':..., 'cf': None|'name'|['ref', k]
+(list object k of 'lists', the same Python list in every step that names it), 'chunk':...} with rf additionally
+['aref', k] (ndarray object k of 'arrs'), or an edit of the dataframe between exports
+{'edit': ['append', name, data] | ['delete', name] | ['create', name, kind, data] | ['clear', name]}.
+Result of op seq: per export step [exception or None, bytes of the destination afterwards or None, rows or None].
 """
 import itertools, os, io, struct
 
@@ -20,6 +29,9 @@ LEVEL = 'proof'
 TIMEOUT_S = 30.0
 VARIANT = 1 if os.environ.get('C18_VARIANT', 'fix') == 'orig' else 0
 DEFAULT_CHUNK = 1 << 15
+# histories: 1 = to_csv copies the caller's column_filter list before list.remove (after work/SC18/fix-F-C18j.diff),
+# 0 = it does not (replays F-C18j against an unrepaired tree: C18_HIST=orig)
+HIST_COPIES = 0 if os.environ.get('C18_HIST', 'fix') == 'orig' else 1
 
 RULE = ('exhaustive small scope: (A) every row count n<=5 (thorough 7) x every boolean array filter of length 0..n+1 x '
         'every chunk_row_size 1..n+2 and the default; (B) a 3-column frame x every ordered column subset, str/list/'
@@ -29,7 +41,19 @@ RULE = ('exhaustive small scope: (A) every row count n<=5 (thorough 7) x every b
         'with n = k*chunk, k*chunk+-1; (F) the reference parser csv_parse against csv.reader on every byte string of '
         'length <=5 (thorough 6) over {a , " LF CR blank}; (G) to_pandas on small frames x all masks x column filters. '
         'Every csv case compares the bytes of the file, the rows csv.reader recovers and (flag reimp) the columns '
-        'ExeTera re-imports under the matching schema. HDF5-backed: ~5-15 ms per case.')
+        'ExeTera re-imports under the matching schema. HDF5-backed: ~5-15 ms per case. '
+        'Added by SC18: (H) NON-RECTANGULAR frames: 3 columns of every length in {0,2,3} (thorough 0..4) x 15 column '
+        'filters (str, every ordered subset) x None/array/short array/own field/memory-backed field row filters x chunk '
+        '1,2,default (thorough 1..4,default), the same frames through to_pandas, and never-selected columns of the other '
+        'field types (fixed string, categorical, timestamp) of other lengths; (E2) random ragged frames exported through a '
+        'column filter; (I) HISTORIES: every sequence of 2 calls over an alphabet of 11 calls (and of 3 over 8, thorough 11) '
+        'on one dataframe object and one destination path with the caller\'s column_filter list objects and filter '
+        'arrays reused, failing calls in between, edits of the dataframe (append / clear / create / delete) between '
+        'exports, random histories of 3-6 steps; (K) more rows than the default chunk_row_size 1<<15 (default-argument '
+        'path iterates), 255..1000 rows with chunk 255..257, cells of 255..70001 bytes with multi-byte text and quotes; '
+        '(J) change-directed: every new small integer literal K of the tree under test planted as row count, chunk size, '
+        'filter length, length of unselected columns, cell width, column count, history length (K-1, K, K+1, 2K, 2K+1); '
+        'random budget x3 when a library source differs from the recorded tree.')
 EXHAUSTIVE = {'quick': True, 'thorough': True}
 TRUSTED = ['CPython str(float) / str(bool) literals are supplied to the model by the harness (repr of the stored value); '
            'integer literals are rendered in Gallina (render_int)',
@@ -37,7 +61,8 @@ TRUSTED = ['CPython str(float) / str(bool) literals are supplied to the model by
            'and by every csv case',
            'the ExeTera importer (read_csv, String()/Numeric(strict)) is exercised as a black box for the re-import clause',
            'pandas.DataFrame construction from a dict of numpy arrays']
-ASSUMPTIONS = ['files are UTF-8 with LF line ends (after fix-F-C18h to_csv no longer depends on the locale; an ASCII-locale '
+ASSUMPTIONS = ['columns of field types other than indexed string / numeric occur only as columns that are not selected',
+               'files are UTF-8 with LF line ends (after fix-F-C18h to_csv no longer depends on the locale; an ASCII-locale '
                'interpreter is exercised; newline translation of Windows text mode is not exercised on this machine)',
                'column names are unique within a frame; to_pandas receives list/ndarray masks only']
 
@@ -64,6 +89,7 @@ def warmup():
 
 INT_KINDS = ('int8', 'int16', 'int32', 'int64', 'uint8', 'uint16', 'uint32', 'uint64')
 FLOAT_KINDS = ('float32', 'float64')
+OPAQUE_KINDS = ('fixed', 'cat', 'ts')      # never selected; see the module docstring
 
 
 def _b(s):
@@ -88,16 +114,26 @@ def _text(kind, x):
     return _b(repr(float(x)))
 
 
-def _make_df(ds, name, cols):
+def _add_col(df, n, kind, data):
     np = _np
+    if kind == 'fixed':
+        df.create_fixed_string(n, 4).data.write(np.asarray([x.encode('ascii') for x in data], dtype='S4'))
+    elif kind == 'cat':
+        df.create_categorical(n, 'int8', {'n': 0, 'y': 1}).data.write(np.asarray(data, dtype='int8'))
+    elif kind == 'ts':
+        df.create_timestamp(n).data.write(np.asarray([float(x) for x in data], dtype='float64'))
+    elif kind == 'str':
+        df.create_indexed_string(n).data.write(list(data))
+    elif kind in FLOAT_KINDS:
+        df.create_numeric(n, kind).data.write(np.asarray([float.fromhex(h) for h in data], dtype=kind))
+    else:
+        df.create_numeric(n, kind).data.write(np.asarray(data, dtype=kind))
+
+
+def _make_df(ds, name, cols):
     df = ds.create_dataframe(name)
     for (n, kind, data) in cols:
-        if kind == 'str':
-            df.create_indexed_string(n).data.write(list(data))
-        elif kind in FLOAT_KINDS:
-            df.create_numeric(n, kind).data.write(np.asarray([float.fromhex(h) for h in data], dtype=kind))
-        else:
-            df.create_numeric(n, kind).data.write(np.asarray(data, dtype=kind))
+        _add_col(df, n, kind, data)
     return df
 
 
@@ -122,6 +158,109 @@ def _run_in_locale(case):
         if line.startswith('RESULT '):
             return json.loads(line[7:])
     raise RuntimeError('subprocess failed: ' + r.stderr[-300:])
+
+
+def _rf_object(ds, df, rf, arrs):
+    """the Python object passed as row_filter"""
+    np = _np
+    if rf[0] == 'arr':
+        return np.array(rf[1], dtype=bool)
+    if rf[0] == 'aref':
+        return arrs[rf[1]]
+    if rf[0] == 'field':
+        return df[rf[1]]
+    if rf[0] == 'mem':
+        # a memory-backed boolean field, what `df['a'] > 1` evaluates to
+        from exetera.core import fields as _fields
+        f = _fields.NumericMemField(_sess, 'bool')
+        f.data.write(np.array(rf[1], dtype=bool))
+        return f
+    _counter[0] += 1
+    odf = ds.create_dataframe('other%d' % _counter[0])
+    odf.create_numeric(rf[1], 'bool').data.write(np.array(rf[2], dtype=bool))
+    return odf[rf[1]]
+
+
+def _run_seq(case, ds, df):
+    """a history: exports of one dataframe object to one path, the caller's list / array objects reused"""
+    np = _np
+    from harness.worker import exc_name
+    lists = [list(l) for l in case.get('lists', [])]
+    arrs = [np.array(a, dtype=bool) for a in case.get('arrs', [])]
+    path = os.path.join(os.environ.get('TMPDIR', '/tmp'), 'c18_%d_%d_seq.csv' % (os.getpid(), _counter[0]))
+    out = []
+    cur = case['cols']
+    try:
+        for st in case['steps']:
+            if 'edit' in st:
+                e = st['edit']
+                if e[0] == 'append':
+                    kind = [c[1] for c in cur if c[0] == e[1]][0]
+                    fld = df[e[1]]
+                    if kind == 'str':
+                        fld.data.write(list(e[2]))
+                    elif kind in FLOAT_KINDS:
+                        fld.data.write(np.asarray([float.fromhex(h) for h in e[2]], dtype=kind))
+                    else:
+                        fld.data.write(np.asarray(e[2], dtype=kind))
+                elif e[0] == 'delete':
+                    del df[e[1]]
+                elif e[0] == 'create':
+                    _add_col(df, e[1], e[2], e[3])
+                elif e[0] == 'clear':
+                    df[e[1]].data.clear()
+                cur = _apply_edit(cur, e)
+                continue
+            kw = {}
+            if st['rf'] is not None:
+                kw['row_filter'] = _rf_object(ds, df, st['rf'], arrs)
+            cf = st['cf']
+            if cf is not None:
+                kw['column_filter'] = lists[cf[1]] if isinstance(cf, list) else cf
+            if st['chunk'] is not None:
+                kw['chunk_row_size'] = st['chunk']
+            exc = None
+            try:
+                df.to_csv(path, **kw)
+            except Exception as e:  # noqa
+                exc = 'EXC:' + exc_name(e)
+            after = open(path, 'rb').read() if os.path.exists(path) else None
+            rows = None
+            if exc is None:
+                rows = [[_b(c) for c in row] for row in _csv.reader(io.StringIO(after.decode('utf-8'), newline=''))]
+            out.append([exc, None if after is None else list(after), rows])
+        return out
+    finally:
+        if os.path.exists(path):
+            os.unlink(path)
+
+
+def _apply_edit(cols, e):
+    cols = [list(c) for c in cols]
+    if e[0] == 'append':
+        for c in cols:
+            if c[0] == e[1]:
+                c[2] = list(c[2]) + list(e[2])
+    elif e[0] == 'delete':
+        cols = [c for c in cols if c[0] != e[1]]
+    elif e[0] == 'create':
+        cols.append([e[1], e[2], list(e[3])])
+    elif e[0] == 'clear':
+        for c in cols:
+            if c[0] == e[1]:
+                c[2] = []
+    return cols
+
+
+def _frames_of(case):
+    """the frame before every step of a history"""
+    cols = case['cols']
+    out = []
+    for st in case['steps']:
+        out.append(cols)
+        if 'edit' in st:
+            cols = _apply_edit(cols, st['edit'])
+    return out
 
 
 def run(case):
@@ -157,17 +296,12 @@ def run(case):
                     assert dt == k, (dt, k)
                 out.append([_b(c), _col_texts(k, vals)])
             return out
+        if op == 'seq':
+            return _run_seq(case, ds, df)
         kw = {}
         rf = case['rf']
         if rf is not None:
-            if rf[0] == 'arr':
-                kw['row_filter'] = np.array(rf[1], dtype=bool)
-            elif rf[0] == 'field':
-                kw['row_filter'] = df[rf[1]]
-            else:
-                odf = ds.create_dataframe('other')
-                odf.create_numeric(rf[1], 'bool').data.write(np.array(rf[2], dtype=bool))
-                kw['row_filter'] = odf[rf[1]]
+            kw['row_filter'] = _rf_object(ds, df, rf, None)
         if case['cf'] is not None:
             kw['column_filter'] = list(case['cf']) if isinstance(case['cf'], list) else case['cf']
         if case['chunk'] is not None:
@@ -223,6 +357,9 @@ def _frame_val(cols):
             out.append([_b(n), 3 if kind == 'int64' else 1, [_int_cell(int(z)) for z in data]])
         elif kind == 'bool':
             out.append([_b(n), 4, [_text('bool', x) for x in data]])
+        elif kind in OPAQUE_KINDS:
+            # never selected (checked in to_val): the cells are opaque to the export
+            out.append([_b(n), 2, [_b('?%s' % x) for x in data]])
         else:
             out.append([_b(n), 2, [_text(kind, _float_of(kind, h)) for h in data]])
     return out
@@ -243,22 +380,47 @@ def _field_flags(case, name):
     raise KeyError(name)
 
 
+def _rf_val(cols, rf, arrs=None):
+    if rf is None:
+        return []
+    if rf[0] == 'arr':
+        return [[0, rf[1]]]
+    if rf[0] == 'aref':
+        return [[0, arrs[rf[1]]]]
+    if rf[0] == 'field':
+        return [[1, _b(rf[1]), _field_flags({'cols': cols}, rf[1]), 1]]
+    if rf[0] == 'mem':
+        return [[1, [], rf[1], 0]]        # a field that belongs to no dataframe (its name is None)
+    return [[1, _b(rf[1]), rf[2], 0]]
+
+
+def _check_opaque(cols, sel):
+    for (n, kind, data) in cols:
+        if kind in OPAQUE_KINDS and n in sel:
+            raise ValueError('generator error: column %r of kind %r must never be selected' % (n, kind))
+
+
 def to_val(case):
     op = case['op']
     if op == 'parse':
         return [3, case['s']]
+    if op == 'seq':
+        calls = []
+        for st, cols in zip(case['steps'], _frames_of(case)):
+            if 'edit' in st:
+                continue
+            cf = st['cf']
+            names = [c[0] for c in cols]
+            _check_opaque(cols, names if cf is None else ([cf] if isinstance(cf, str) else case['lists'][cf[1]]))
+            cfv = [] if cf is None else ([[0, _b(cf)]] if isinstance(cf, str) else [[2, cf[1]]])
+            calls.append([_frame_val(cols), _rf_val(cols, st['rf'], case.get('arrs')), cfv,
+                          DEFAULT_CHUNK if st['chunk'] is None else st['chunk']])
+        return [4, HIST_COPIES, [[_b(n) for n in l] for l in case.get('lists', [])], calls]
+    _check_opaque(case['cols'], _sel_names(case))
     fr = _frame_val(case['cols'])
     if op == 'pandas':
         return [2, VARIANT, fr, [] if case['rf'] is None else [case['rf']], _cf_val(case['cf'])]
-    rf = case['rf']
-    if rf is None:
-        rfv = []
-    elif rf[0] == 'arr':
-        rfv = [[0, rf[1]]]
-    elif rf[0] == 'field':
-        rfv = [[1, _b(rf[1]), _field_flags(case, rf[1]), 1]]
-    else:
-        rfv = [[1, _b(rf[1]), rf[2], 0]]
+    rfv = _rf_val(case['cols'], case['rf'])
     return [1, VARIANT, fr, rfv, _cf_val(case['cf']), DEFAULT_CHUNK if case['chunk'] is None else case['chunk'],
             1 if case.get('env') == 'C' else 0]
 
@@ -283,6 +445,15 @@ def from_val(case, v):
     if op == 'parse':
         return v
     m, s = v
+    if op == 'seq':
+        model, spec = [], []
+        for (ret, after), (sp,) in zip(m, s):
+            e = _err(ret)
+            after = after[0] if after else None
+            model.append([e, after, None] if e else [None, after, ret[1]])
+            e = _err(sp)
+            spec.append([e, None] if e else [None, sp[0]])
+        return (model, spec)
     em, es = _err(m), _err(s)
     if op == 'pandas':
         if s == [-998]:
@@ -304,6 +475,16 @@ def from_val(case, v):
 
 
 def equal(case, impl, expected, mode):
+    if case['op'] == 'seq' and isinstance(impl, list) and isinstance(expected, list):
+        if len(impl) != len(expected):
+            return False
+        for i, e in zip(impl, expected):
+            if len(e) == 2:        # specification: the exception, or the table a CSV parser must recover
+                if [i[0], i[2]] != e:
+                    return False
+            elif i != e:           # model: also the bytes of the destination after the call
+                return False
+        return True
     if isinstance(expected, str) or isinstance(impl, str):
         if isinstance(expected, str) and expected.startswith('OOB'):
             return impl == 'EXC:IndexError'
@@ -341,13 +522,27 @@ def features(case, model):
         if s and s[-1:] not in (b'\n', b'\r'): f.append('parse:no-final-newline')
         if b'""' in s: f.append('parse:double-quote')
         return f
+    if op == 'seq':
+        return f + _seq_features(case)
     cols = {c[0]: c for c in case['cols']}
     sel = [n for n in _sel_names(case) if n in cols]
     n = len(cols[sel[0]][2]) if sel else 0
     if len(case['cols']) == 0: f.append('empty-frame')
     if not sel: f.append('zero-columns')
     if n == 0: f.append('zero-rows')
-    if len({len(c[2]) for c in case['cols']}) > 1: f.append('ragged-frame')
+    if len({len(c[2]) for c in case['cols']}) > 1:
+        f.append('ragged-frame')
+        lens = [len(cols[k][2]) for k in sel]
+        rest = [len(c[2]) for c in case['cols'] if c[0] not in sel]
+        if lens and len(set(lens)) == 1 and rest:
+            # the selected columns agree with each other; a column that is NOT selected differs
+            if min(rest) < n: f.append('ragged:unselected-column-shorter')
+            if max(rest) > n: f.append('ragged:unselected-column-longer')
+            if min(rest) == 0 and n > 0: f.append('ragged:unselected-column-empty')
+        if len(set(lens)) > 1: f.append('ragged:selected-columns-differ')
+    if any(c[1] in OPAQUE_KINDS for c in case['cols']): f.append('unselected-column-of-other-field-type')
+    if n >= 256: f.append('rows>=256')
+    if n > DEFAULT_CHUNK: f.append('rows>default-chunk')
     strs = [s for k in sel for s in (cols[k][2] if cols[k][1] == 'str' else [])]
     if any(',' in s for s in strs): f.append('cell:comma')
     if any('"' in s for s in strs): f.append('cell:quote')
@@ -356,6 +551,8 @@ def features(case, model):
     if any(s[:1] == ' ' for s in strs): f.append('cell:leading-blank')
     if any(s == '' for s in strs): f.append('cell:empty')
     if any(any(ord(ch) > 127 for ch in s) for s in strs): f.append('cell:multibyte')
+    if any(len(s.encode('utf-8')) >= 256 for s in strs): f.append('cell:bytes>=256')
+    if any(len(s.encode('utf-8')) >= 65536 for s in strs): f.append('cell:bytes>=65536')
     if len(sel) == 1 and any(s == '' for s in strs): f.append('single-empty-cell-row')
     for k in sel:
         if cols[k][1] != 'str': f.append('dtype:' + cols[k][1])
@@ -380,13 +577,13 @@ def features(case, model):
     if case['chunk'] is None: f.append('chunk:default')
     rf = case['rf']
     if rf is not None:
-        fl = rf[1] if rf[0] == 'arr' else (_field_flags(case, rf[1]) if rf[0] == 'field' else rf[2])
+        fl = rf[1] if rf[0] in ('arr', 'mem') else (_field_flags(case, rf[1]) if rf[0] == 'field' else rf[2])
         f.append('rf:' + rf[0])
         if len(fl) < n: f.append('filter-shorter')
         elif len(fl) > n: f.append('filter-longer')
         else: f.append('filter-len-eq')
         if fl and not any(fl): f.append('filter-all-false')
-        if rf[0] != 'arr' and rf[1] in (([case['cf']] if isinstance(case['cf'], str) else case['cf'])
+        if rf[0] not in ('arr', 'mem') and rf[1] in (([case['cf']] if isinstance(case['cf'], str) else case['cf'])
                                          if case['cf'] is not None else list(cols)):
             f.append('filter-field-removed-from-columns' if rf[0] == 'field' else 'foreign-filter-field-shares-a-column-name')
         if ch >= 1 and len(fl) > ch and any(fl[ch:]): f.append('filter-hit-beyond-first-chunk')
@@ -397,7 +594,46 @@ def features(case, model):
             f.append('cf:reordered')
     if case.get('reimp'): f.append('reimport')
     if case.get('env') == 'C': f.append('locale:C-ascii')
+    for h in case.get('hot', []): f.append('hot:%s' % h)
     return f
+
+
+def _seq_features(case):
+    f = ['history']
+    exports = [(i, st) for i, st in enumerate(case['steps']) if 'edit' not in st]
+    f.append('history:exports=%d' % len(exports))
+    frames = _frames_of(case)
+    used, removed = {}, set()
+    prev_ok_len = None
+    seen_edit = False
+    for i, st in enumerate(case['steps']):
+        if 'edit' in st:
+            seen_edit = True
+            f.append('history:edit-' + st['edit'][0])
+            continue
+        if seen_edit and prev_ok_len is not None: f.append('history:export-after-edit')
+        cf, rf = st['cf'], st['rf']
+        names = [c[0] for c in frames[i]]
+        valid = (st['chunk'] is None or st['chunk'] >= 1) and (
+            cf is None or (cf in names if isinstance(cf, str) else
+                           (len(case['lists'][cf[1]]) > 0 and all(x in names for x in case['lists'][cf[1]]))))
+        if isinstance(cf, list):
+            k = cf[1]
+            if k in used: f.append('history:column_filter-list-object-reused')
+            if k in removed: f.append('history:list-reused-after-a-call-that-removed-its-filter-field')
+            used[k] = True
+            if valid and rf is not None and rf[0] == 'field' and rf[1] in case['lists'][k]:
+                removed.add(k)
+        if rf is not None and rf[0] == 'aref': f.append('history:filter-array-object-reused')
+        if rf is not None and rf[0] == 'mem': f.append('rf:mem')
+        if not valid:
+            f.append('history:failing-call' + ('-with-file-present' if prev_ok_len is not None else ''))
+        else:
+            sel = names if cf is None else ([cf] if isinstance(cf, str) else list(case['lists'][cf[1]]))
+            ln = min([len(c[2]) for c in frames[i] if c[0] in sel], default=0) * max(1, len(sel))
+            if prev_ok_len is not None and ln < prev_ok_len: f.append('history:smaller-export-over-larger-file')
+            prev_ok_len = ln
+    return sorted(set(f))
 
 
 def nontrivial(case, model):
@@ -436,7 +672,262 @@ def _csv(cols, rf=None, cf=None, chunk=None, reimp=False):
     return {'op': 'csv', 'cols': cols, 'rf': rf, 'cf': cf, 'chunk': chunk, 'reimp': reimp}
 
 
+# --------------------------------------------------------------------------- SC18: regions added after seeded round 2
+def _pat(m, k=0):
+    """a fixed non-periodic 0/1 pattern of length m"""
+    return [int(((i + k) * 7 + (i + k) // 3) % 5 not in (1, 3)) for i in range(m)]
+
+
+def _rect(cols, sel):
+    d = {c[0]: len(c[2]) for c in cols}
+    return len({d[n] for n in sel if n in d}) <= 1
+
+
+def _col3(la, ls, lf, k=0):
+    return [['a', 'int32', [100 + i for i in range(la)]], ['s', 'str', ['r%d' % i if i != 1 else ' q,%d' % i for i in range(ls)]],
+            ['f', 'bool', _pat(lf, k)]]
+
+
+RAGGED_CFS = [None, 'a', 's', 'f', ['a'], ['s'], ['f'], ['a', 's'], ['s', 'a'], ['a', 'f'], ['f', 'a'], ['s', 'f'], ['f', 's'],
+              ['a', 's', 'f'], ['f', 's', 'a']]
+
+
+def _gen_ragged(big):
+    """(H) the frame is NOT rectangular: every combination of column lengths x every column filter x every kind of row
+    filter x chunk sizes.  The output may depend on the selected columns only (their common length when they agree,
+    zip-truncation when they do not) - never on a column that is not selected."""
+    L = (0, 1, 2, 3, 4) if big else (0, 2, 3)
+    chunks = (1, 2, 3, 4, None) if big else (1, 2, None)
+    for la in L:
+        for ls in L:
+            for lf in L:
+                cols = _col3(la, ls, lf)
+                mx = max(la, ls, lf)
+                rfs = [None, ['arr', _pat(mx, 1)], ['arr', [1]], ['field', 'f'], ['mem', _pat(mx + 1, 2)]]
+                for cf in RAGGED_CFS:
+                    for rf in rfs:
+                        sel = _sel_names({'op': 'csv', 'cols': cols, 'cf': cf, 'rf': rf})
+                        for chunk in chunks:
+                            yield _csv(cols, rf=rf, cf=cf, chunk=chunk, reimp=(chunk is None and _rect(cols, sel)))
+                # to_pandas: the requested columns agree, another column does not
+                for cf in RAGGED_CFS:
+                    names = ['a', 's', 'f'] if cf is None else ([cf] if isinstance(cf, str) else cf)
+                    n0 = {'a': la, 's': ls, 'f': lf}[names[0]]
+                    for rf in (None, _pat(n0, 3), []):
+                        yield {'op': 'pandas', 'cols': cols, 'rf': rf, 'rft': 'array', 'cf': cf}
+    # columns of the other field types (fixed string, categorical, timestamp) that are not selected, of other lengths
+    for lens in ((2, 4, 0), (4, 0, 2), (0, 2, 4), (3, 3, 3), (1, 1, 7)):
+        cols = [['x', 'fixed', ['ab', 'c', 'defg', '', 'zz', 'y', 'k'][:lens[0]]], ['a', 'int16', [5, -6, 7]],
+                ['c', 'cat', [0, 1, 1, 0, 1, 0, 0][:lens[1]]], ['s', 'str', ['u', 'v,', 'w']],
+                ['t', 'ts', [0.0, 1.5e9, 86400.0, 1.0, 2.0, 3.0, 4.0][:lens[2]]], ['f', 'bool', [1, 0, 1]]]
+        for cf in ('a', ['a', 's'], ['s', 'a'], ['s'], ['f', 'a']):
+            for rf in (None, ['arr', [0, 1, 1]], ['field', 'f'], ['mem', [1, 1]]):
+                for chunk in (1, 2, None):
+                    yield _csv(cols, rf=rf, cf=cf, chunk=chunk, reimp=(chunk is None))
+        for cf in ('a', ['a', 's'], ['s', 'a']):
+            yield {'op': 'pandas', 'cols': cols, 'rf': [1, 0, 1], 'rft': 'array', 'cf': cf}
+
+
+def _gen_random_ragged(count, rng):
+    """(E2) random frames whose columns differ in length, exported through a column filter"""
+    pool = ALPHA + ['b', '€', '""', ',,']
+    for _ in range(count):
+        chunk = rng.choice([1, 2, 3, 4, 5, 7, 8])
+        n = max(0, rng.randint(0, 4) * chunk + rng.choice([-1, 0, 0, 1]))
+        ncols = rng.randint(2, 5)
+        cols = []
+        agree = rng.random() < 0.6
+        nsel = rng.randint(1, ncols - 1)
+        for j in range(ncols):
+            kind = rng.choice(['str', 'str', 'int32', 'uint64', 'bool', 'int64', 'float64'])
+            m = n if (agree and j < nsel) else max(0, n + rng.choice([-3, -2, -1, -1, 0, 1, 2, 5, -n]))
+            if kind == 'str':
+                data = [''.join(rng.choice(pool) for _ in range(rng.choice([0, 1, 1, 2, 3]))) for _ in range(m)]
+            elif kind == 'float64':
+                data = [rng.choice([0.5, -1.25, 1e300, 2.0 ** -40]).hex() for _ in range(m)]
+            elif kind == 'bool':
+                data = [rng.randint(0, 1) for _ in range(m)]
+            else:
+                data = [rng.choice(INT_BOUNDS[kind]) for _ in range(m)]
+            cols.append(['c%d' % j, kind, data])
+        sel = ['c%d' % j for j in range(nsel)]
+        rng.shuffle(sel)
+        order = list(range(ncols))
+        rng.shuffle(order)                       # the selected columns are anywhere in the frame
+        cols = [cols[j] for j in order]
+        bools = [c[0] for c in cols if c[1] == 'bool']
+        r = rng.random()
+        if r < 0.2:
+            rf = None
+        elif r < 0.45 and bools:
+            rf = ['field', rng.choice(bools)]
+        elif r < 0.55:
+            rf = ['mem', [rng.randint(0, 1) for _ in range(max(0, n + rng.choice([-1, 0, 2])))]]
+        else:
+            rf = ['arr', [rng.randint(0, 1) for _ in range(max(0, n + rng.choice([-3, -1, 0, 0, 1, 4])))]]
+        cf = sel[0] if (len(sel) == 1 and rng.random() < 0.5) else sel
+        names = _sel_names({'op': 'csv', 'cols': cols, 'cf': cf, 'rf': rf})
+        yield _csv(cols, rf=rf, cf=cf, chunk=rng.choice([chunk, chunk, None]), reimp=_rect(cols, names))
+
+
+def _step(rf=None, cf=None, chunk=None):
+    return {'rf': rf, 'cf': cf, 'chunk': chunk}
+
+
+def _gen_hist(big, rng):
+    """(I) histories: several exports of one dataframe object to one destination, the caller's column_filter list
+    and filter array OBJECTS reused, edits of the dataframe between exports.  Every call must produce what a fresh
+    call with the arguments as written produces on the frame as it then is."""
+    lists = [['a', 'f'], ['s', 'f', 'a'], ['f'], ['a', 'zz']]
+    arrs = [[1, 0, 1, 1], [0, 1]]
+    alphabet = [
+        _step(rf=['field', 'f'], cf=['ref', 0], chunk=2),      # removes 'f' from the columns
+        _step(cf=['ref', 0], chunk=1),
+        _step(rf=['field', 'f'], cf=['ref', 1], chunk=3),
+        _step(cf=['ref', 1]),
+        _step(rf=['aref', 0], chunk=2),
+        _step(rf=['aref', 1], cf='s', chunk=1),                # a small export (over a larger file)
+        _step(rf=['field', 'f'], cf=['ref', 2], chunk=1),      # nothing left to write but the header
+        _step(cf=['ref', 3], chunk=2),                         # ValueError: the destination keeps its content
+        _step(cf=['ref', 0], chunk=0),                         # ValueError
+        _step(rf=['xfield', 'f', [0, 1, 1]], cf=['ref', 0], chunk=2),
+        _step(rf=['mem', [1, 1, 0, 1]], cf=['ref', 1], chunk=2),
+    ]
+    frames = [_col3(3, 3, 3), _col3(4, 4, 2, 1)]
+    for cols in frames:
+        for a in alphabet:
+            for b in alphabet:
+                yield {'op': 'seq', 'cols': cols, 'lists': lists, 'arrs': arrs, 'steps': [a, b]}
+    A3 = alphabet if big else alphabet[:8]
+    for a in A3:
+        for b in A3:
+            for c in A3:
+                if a is b and b is c:
+                    continue
+                yield {'op': 'seq', 'cols': frames[0], 'lists': lists, 'arrs': arrs, 'steps': [a, b, c]}
+    # the dataframe is edited between exports
+    edits = [
+        {'edit': ['append', 'a', [7, 8]]}, {'edit': ['append', 's', ['n,ew', '']]}, {'edit': ['append', 'f', [1, 1]]},
+        {'edit': ['delete', 's']}, {'edit': ['create', 'z', 'str', ['p', 'q', ' r', 's', 't']]},
+        {'edit': ['create', 'y', 'uint8', [1]]}, {'edit': ['clear', 'a']}, {'edit': ['clear', 'f']},
+    ]
+    exports = [_step(chunk=2), _step(cf=['ref', 0], chunk=1), _step(rf=['field', 'f'], chunk=2),
+               _step(rf=['aref', 0], cf='a', chunk=3), _step(rf=['field', 'f'], cf=['ref', 0])]
+    for e in edits:
+        for x in exports:
+            for y in exports:
+                if e['edit'] == ['clear', 'f'] and False:
+                    continue
+                yield {'op': 'seq', 'cols': frames[0], 'lists': lists, 'arrs': arrs, 'steps': [x, e, y]}
+    for e1 in edits[:3]:
+        for e2 in edits[:3]:
+            yield {'op': 'seq', 'cols': frames[0], 'lists': lists, 'arrs': arrs,
+                   'steps': [exports[0], e1, exports[1], e2, exports[0], exports[4], exports[1]]}
+    # random longer histories
+    for _ in range(600 if big else 60):
+        cols = _col3(*[rng.choice([0, 1, 3, 5]) for _ in range(3)], k=rng.randint(0, 9))
+        steps = []
+        have_s = True
+        for _k in range(rng.randint(3, 6)):
+            if rng.random() < 0.25:
+                e = rng.choice(edits[:3] + edits[6:])
+                steps.append(e)
+            else:
+                steps.append(rng.choice(alphabet))
+        yield {'op': 'seq', 'cols': cols, 'lists': lists, 'arrs': arrs, 'steps': steps}
+
+
+def _gen_large(big):
+    """(K) beyond the exhaustive scope: more rows than the default chunk_row_size (the default-argument path runs its
+    loop more than once), >= 256 rows, cells of >= 256 / >= 65536 bytes (characters != bytes)"""
+    D = DEFAULT_CHUNK
+    for n in ((D - 1, D, D + 1, 2 * D, 2 * D + 3) if big else (D + 1, 2 * D + 3)):
+        cols = [['a', 'int32', [(i * 7919) % 100003 - 50000 for i in range(n)]],
+                ['s', 'str', ['' if i % 11 == 0 else ('x,%d' % i if i % 7 == 0 else 'v%d' % (i % 13)) for i in range(n)]],
+                ['u', 'uint8', [1, 2, 3]]]
+        if big or n == D + 1:
+            yield _csv(cols, cf=['s', 'a'], chunk=None, reimp=True)
+        yield _csv(cols, rf=['arr', _pat(n - 5)], cf=['a', 's'], chunk=None)
+        if big or n > 2 * D:
+            yield _csv(cols, rf=['arr', _pat(D + 2, 1)], cf='a', chunk=D)
+        if big:
+            yield _csv(cols, rf=['arr', _pat(n, 2)], cf=['a'], chunk=D - 1)
+            yield _csv(cols, cf=['a', 's'], chunk=D + 1)
+    for n in (255, 256, 257, 1000):
+        cols = [['a', 'int16', [i - 300 for i in range(n)]], ['s', 'str', ['é%d' % i for i in range(n)]]]
+        for chunk in (255, 256, 257, None):
+            yield _csv(cols, rf=['arr', _pat(n - 1)], chunk=chunk, reimp=(chunk is None))
+    for w in ((255, 256, 257, 65535, 65536, 65537, 70001) if big else (255, 256, 257, 65537)):
+        cells = ['a' * w, 'é' * (w // 2) + 'z' * (w % 2), ('q"' * w)[:w], ',' + 'b' * (w - 1), 'x' * (w - 1) + '\n', '€' * (w // 3)]
+        for chunk in ((1, 4, None) if (big or w < 1000) else (4, None)):
+            yield _csv([['n', 'uint8', list(range(len(cells)))], ['s', 'str', cells]], chunk=chunk, reimp=(chunk is None and w < 1000))
+            if big or w < 1000 or chunk == 4:
+                yield _csv([['s', 'str', cells]], rf=['arr', [1, 0, 1, 1, 1, 1]], chunk=chunk)
+
+
+def _gen_hot(rng):
+    """(J) change-directed: every small integer literal that is NEW in the tree under test is planted as row count,
+    chunk size, filter length, length of a column that is not selected, cell width and column count"""
+    from harness import hot
+    for K in hot.hot_sizes():
+        tag = [K]
+        ns = sorted({max(0, K - 1), K, K + 1, 2 * K, 2 * K + 1})
+        chunks = sorted({max(1, K - 1), K, K + 1}) + [1 if K <= 300 else 2 * K, None]
+        for n in ns:
+            cols = [['a', 'int32', [(i * 31) % 1009 for i in range(n)]], ['s', 'str', ['v%d' % (i % 17) for i in range(n)]],
+                    ['w', 'uint16', list(range(K))], ['v', 'uint16', list(range(K - 1))], ['x', 'str', ['k'] * (K + 1)]]
+            rfs = [None, ['arr', _pat(K)], ['arr', _pat(max(0, K - 1), 1)]]
+            cfs = [['a', 's'], None]
+            if K <= 300:
+                rfs += [['arr', _pat(n)], ['mem', _pat(K + 1, 2)]]
+                cfs += [['s', 'w', 'a'], 'a']
+            for chunk in chunks:
+                for rf in rfs:
+                    for cf in cfs:
+                        c = _csv(cols, rf=rf, cf=cf, chunk=chunk)
+                        c['hot'] = tag
+                        yield c
+        if K <= 4096:
+            for w in (K - 1, K, K + 1):
+                cells = ['a' * w, 'é' * w, ('"' * w), 'b' * (w - 1) + ',', '']
+                c = _csv([['s', 'str', cells], ['n', 'int8', [1, 2, 3, 4, 5]]], chunk=2, reimp=True)
+                c['hot'] = tag
+                yield c
+        if K <= 64:
+            for nc in (K - 1, K, K + 1):
+                cols = [['c%d' % j, 'int8' if j % 2 else 'str', [j % 100, 1] if j % 2 else ['p%d' % j, '']] for j in range(nc)]
+                for cf in (None, ['c%d' % j for j in range(nc - 1, -1, -1)] or None):
+                    c = _csv(cols, cf=cf, chunk=1)
+                    c['hot'] = tag
+                    yield c
+            # histories of K-1, K, K+1 exports through the same list object
+            for m in (K - 1, K, K + 1):
+                if 1 <= m <= 40:
+                    yield {'op': 'seq', 'cols': _col3(3, 3, 3), 'lists': [['a', 's']], 'arrs': [[1, 0, 1]],
+                           'steps': [_step(rf=['aref', 0], cf=['ref', 0], chunk=2)] * m, 'hot': tag}
+
+
 def gen(tier, rng):
+    from harness import hot
+    big = tier == 'thorough'
+    boost = 3 if hot.changed() else 1
+    # order: small cases first (the first failing case is the one that is shrunk and reported); the large cases sit
+    # between the random and the history block so that the evidence samples (first / middle / last records) stay small
+    for c in _gen_main(tier, rng):
+        yield c
+    for c in _gen_ragged(big):
+        yield c
+    for c in _gen_random_ragged((3000 if big else 300) * boost, rng):
+        yield c
+    for c in _gen_hot(rng):
+        yield c
+    for c in _gen_large(big):
+        yield c
+    for c in _gen_hist(big, rng):
+        yield c
+
+
+def _gen_main(tier, rng):
     big = tier == 'thorough'
     # (A) the chunk loop: all n, all array filters, all chunk sizes
     N = 7 if big else 5
@@ -588,13 +1079,22 @@ def shrink(case):
         for i in range(len(s)):
             yield {'op': 'parse', 's': s[:i] + s[i + 1:]}
         return
+    if case['op'] == 'seq':
+        steps = case['steps']
+        for i in range(len(steps) - 1, -1, -1):
+            if 'edit' not in steps[i] or steps[i]['edit'][0] in ('append', 'clear'):
+                yield dict(case, steps=steps[:i] + steps[i + 1:])
+        for i, st in enumerate(steps):
+            if 'edit' not in st and st['chunk'] not in (None, 1) and st['chunk'] >= 1:
+                yield dict(case, steps=steps[:i] + [dict(st, chunk=None)] + steps[i + 1:])
+        return
     cols = case['cols']
     n = max([len(c[2]) for c in cols], default=0)
     for i in range(n):
         c2 = [[c[0], c[1], c[2][:i] + c[2][i + 1:]] for c in cols]
         d = dict(case, cols=c2)
-        if case['op'] == 'csv' and case['rf'] is not None and case['rf'][0] == 'arr':
-            d['rf'] = ['arr', case['rf'][1][:i] + case['rf'][1][i + 1:]]
+        if case['op'] == 'csv' and case['rf'] is not None and case['rf'][0] in ('arr', 'mem'):
+            d['rf'] = [case['rf'][0], case['rf'][1][:i] + case['rf'][1][i + 1:]]
         if case['op'] == 'pandas' and case['rf'] is not None:
             d['rf'] = case['rf'][:i] + case['rf'][i + 1:]
         yield d
@@ -620,10 +1120,13 @@ def shrink(case):
 
 TECHNIQUE = ('Coq proof (statement-level model of the to_csv chunk loop, the csv line writer and to_pandas = list-level '
              'specification; reference CSV parser recovers what the writer wrote) + exhaustive small-scope differential '
-             'correspondence against the real to_csv / csv.reader / importer / to_pandas')
+             'correspondence against the real to_csv / csv.reader / importer / to_pandas; histories of calls on the same '
+             'objects are modelled as a state machine over the caller\'s list objects and the destination file')
 LEVEL_TEXT = ('Theorems in coq/Props/C18.v prove, for every frame, row filter, column filter and chunk_row_size >= 1, that the '
               'model of to_csv writes header :: selected rows, that the reference parser recovers every cell text from the '
               'written bytes, that the output does not depend on chunk_row_size and that the loop terminates within the '
-              'stated fuel; the model is tied to the real code by running both on the same generated cases.')
+              'stated fuel; for histories of exports (same dataframe object, same destination, the caller\'s list objects '
+              'reused, the frame edited in between) that every call is independent of the calls before it; the model is '
+              'tied to the real code by running both on the same generated cases.')
 LEVEL_NOTE = ('Trusted: Coq kernel, extraction, harness; str(float) literals are supplied by CPython; the importer used for the '
               're-import clause is exercised, not modelled (its model belongs to C05/C06).')
